@@ -2,30 +2,51 @@
 (* C04 layer 2, design level: which blocks a validator may accept and what a miner may package so that on every
    branch every signed payload takes effect at most once and only inside its window.  Generator of the placements
    that the replayprot adapter builds as REAL blocks (real assembler) and offers to a REAL node; the verdicts of the
-   real node are judged by TraceTxGuard.tla (second half), not by this module.
+   real node are judged by TraceTxGuardChain.tla, not by this module.
 
-   Transactions: t, t2 (= t with a re-encoded signature), u, boxes b = [t], bb = [t, t], bu = [t, u].  A block carries a
-   SEQUENCE of them (duplicates possible).  Offer(p, tm, L): a block on p with timestamp tm carrying L is built and offered.
+   A transaction has a SIGNED CONTENT (what its signers signed: the id below, "t2" being the one content that exists in
+   two signature encodings) and reaches a node in a CARRIER: RLP for a transaction of its own, the JSON payload of a box
+   for a sub-transaction.  A carrier holds more than the signed content - a redundant "hash" member, gasUsed, unknown
+   members, member order, white space - and whoever builds the box (or the block) writes those as he likes.
+   Transactions: t, t2 (= t with a re-encoded signature), u, boxes b = [t], bb = [t, t], bu = [t, u] and w = [t] (another
+   box - other signed wrapper - around the same t).  A block carries a SEQUENCE of them (duplicates possible) in one
+   carrier encoding e \in Encs ("c" = canonical: what the node's own marshaller writes).
+   Offer(p, tm, L, e): a block on p with timestamp tm carrying L, its carriers written in encoding e, is built and offered.
    Design verdict Valid: every transaction (and sub-transaction) inside its window at tm, no signed payload twice inside
-   the block, none already executed on the ancestor chain of p.
-   Flags = what the code as written does NOT check (negative control: AtMostOnce is violated with them):
+   the block, none already executed on the ancestor chain of p - whatever the carriers look like: the identity under which
+   the replay guard files a transaction is a function of its signed content only.
+   Flags = what an implementation might NOT do (negative controls: AtMostOnce is violated with them):
      DupCheck = FALSE         nothing looks for duplicates inside one block / one box
-     PayloadIdentity = FALSE  identity of a transaction is the hash over its signature bytes *)
+     PayloadIdentity = FALSE  identity of a transaction is the hash over its signature bytes (the code as written)
+     CarrierIdentity = TRUE   a sub-transaction read from a box payload is filed under what the payload says it is *)
 EXTENDS Integers, Sequences, FiniteSets, TLC
-CONSTANTS Times, ExpChoices, OfferMenu, MaxBlocks, MaxBoots, DupCheck, PayloadIdentity
+CONSTANTS Times, ExpChoices, OfferMenu, MaxBlocks, MaxBoots, DupCheck, PayloadIdentity,
+          Encs,             \* carrier encodings ("c" and names of manipulations the adapter implements on real payloads)
+          CarrierIdentity
 Life == 1800
-Tx == {"t", "t2", "u", "b", "bb", "bu"}
-SubsOf(x) == CASE x = "b" -> <<"t">> [] x = "bb" -> <<"t", "t">> [] x = "bu" -> <<"t", "u">> [] OTHER -> <<>>
+Canon == "c"
+RlpEncs == {"g"}            \* manipulations that also exist for the RLP carrier of a transaction of its own (gasUsed)
+Tx == {"t", "t2", "u", "b", "bb", "bu", "w"}
+SubsOf(x) == CASE x = "b" -> <<"t">> [] x = "bb" -> <<"t", "t">> [] x = "bu" -> <<"t", "u">> [] x = "w" -> <<"t">> [] OTHER -> <<>>
 Payload(x) == IF x = "t2" THEN "t" ELSE x
 Ident(x) == IF PayloadIdentity THEN Payload(x) ELSE x
 Range(s) == {s[i] : i \in 1..Len(s)}
 Closure(x) == {x} \cup Range(SubsOf(x))
 \* what takes effect, in order, when x is executed: the box itself and its sub-transactions
 ExecSeq(x) == <<x>> \o SubsOf(x)
+SubFlag(x) == <<FALSE>> \o [i \in 1..Len(SubsOf(x)) |-> TRUE]        \* which of them came out of a box payload
 RECURSIVE ExecAll(_)
 ExecAll(L) == IF L = <<>> THEN <<>> ELSE ExecSeq(Head(L)) \o ExecAll(Tail(L))
+RECURSIVE FlagAll(_)
+FlagAll(L) == IF L = <<>> THEN <<>> ELSE SubFlag(Head(L)) \o FlagAll(Tail(L))
 NoDup(s) == \A i, j \in 1..Len(s) : i # j => s[i] # s[j]
 Map(s, F(_)) == [i \in 1..Len(s) |-> F(s[i])]
+HasBox(L) == \E i \in 1..Len(L) : SubsOf(L[i]) # <<>>
+\* the carrier encodings that make a difference for the list L
+Carried(L, e) == e = Canon \/ HasBox(L) \/ (L # <<>> /\ e \in RlpEncs)
+\* the identities under which the replay guard files what a block (list L in carrier encoding e) executes
+Filed(L, e) == LET X == ExecAll(L)  F == FlagAll(L) IN
+               [k \in 1..Len(X) |-> IF CarrierIdentity /\ e # Canon /\ F[k] THEN <<Ident(X[k]), e, k>> ELSE <<Ident(X[k])>>]
 
 VARIABLES exp, blocks, stable, dead,
           boots     \* number of restarts so far: a restart rebuilds the node's guard, so what follows it is a different history
@@ -35,22 +56,24 @@ RECURSIVE Anc(_)
 Anc(b) == IF b = 0 THEN {} ELSE {b} \cup Anc(blocks[b].parent)
 Usable == {b \in 1..N : blocks[b].acc /\ b \notin dead /\ stable \in Anc(b)}
 Legal(x, tm) == \A y \in Closure(x) : tm <= exp[y] /\ exp[y] <= tm + Life
-Done(p, F(_)) == UNION {Range(Map(ExecAll(blocks[X].txl), F)) : X \in Anc(p)}     \* identities executed on the branch ending in p
-Valid(p, tm, L) == /\ \A i \in 1..Len(L) : Legal(L[i], tm)
-                   /\ DupCheck => NoDup(Map(ExecAll(L), Ident))
-                   /\ Range(Map(ExecAll(L), Ident)) \cap Done(p, Ident) = {}
+Done(p) == UNION {Range(Filed(blocks[X].txl, blocks[X].enc)) : X \in Anc(p)}      \* identities filed on the branch ending in p
+DoneP(p) == UNION {Range(Map(ExecAll(blocks[X].txl), Payload)) : X \in Anc(p)}   \* signed payloads executed on that branch
+Valid(p, tm, L, e) == /\ \A i \in 1..Len(L) : Legal(L[i], tm)
+                      /\ DupCheck => NoDup(Filed(L, e))
+                      /\ Range(Filed(L, e)) \cap Done(p) = {}
 Init == /\ exp \in ExpChoices
-        /\ blocks = <<[parent |-> 0, time |-> 0, txl |-> <<>>, acc |-> TRUE]>>       \* genesis
+        /\ blocks = <<[parent |-> 0, time |-> 0, txl |-> <<>>, enc |-> Canon, acc |-> TRUE]>>       \* genesis
         /\ stable = 1 /\ dead = {} /\ boots = 0
-Offer(p, tm, L) == /\ N < MaxBlocks /\ p \in Usable /\ tm >= blocks[p].time
-                   /\ ~ \E X \in 1..N : blocks[X].parent = p /\ blocks[X].time = tm /\ blocks[X].txl = L   \* the very same block again is ignored
-                   /\ blocks' = Append(blocks, [parent |-> p, time |-> tm, txl |-> L, acc |-> Valid(p, tm, L)])
-                   /\ UNCHANGED <<exp, stable, dead, boots>>
+Offer(p, tm, L, e) ==
+  /\ N < MaxBlocks /\ p \in Usable /\ tm >= blocks[p].time /\ Carried(L, e)
+  /\ ~ \E X \in 1..N : blocks[X].parent = p /\ blocks[X].time = tm /\ blocks[X].txl = L /\ blocks[X].enc = e   \* the very same block again is ignored
+  /\ blocks' = Append(blocks, [parent |-> p, time |-> tm, txl |-> L, enc |-> e, acc |-> Valid(p, tm, L, e)])
+  /\ UNCHANGED <<exp, stable, dead, boots>>
 Stabilise(s) == /\ s \in Usable /\ s # stable /\ stable' = s /\ UNCHANGED <<exp, blocks, dead, boots>>
 Reboot == /\ boots < MaxBoots /\ boots' = boots + 1
           /\ dead' = dead \cup ((1..N) \ Anc(stable))
           /\ UNCHANGED <<exp, blocks, stable>>
-Next == \/ \E p \in 1..MaxBlocks, tm \in Times, L \in OfferMenu : Offer(p, tm, L)
+Next == \/ \E p \in 1..MaxBlocks, tm \in Times, L \in OfferMenu, e \in Encs : Offer(p, tm, L, e)
         \/ \E s \in 1..MaxBlocks : Stabilise(s)
         \/ Reboot
 Spec == Init /\ [][Next]_vars
@@ -58,11 +81,14 @@ Spec == Init /\ [][Next]_vars
 Count(s, x) == Cardinality({i \in 1..Len(s) : s[i] = x})
 RECURSIVE Execs(_, _)
 Execs(b, x) == IF b = 0 THEN 0 ELSE Count(Map(ExecAll(blocks[b].txl), Payload), x) + Execs(blocks[b].parent, x)
-AtMostOnce == \A X \in 1..N : blocks[X].acc => \A x \in {"t", "u", "b", "bb", "bu"} : Execs(X, x) <= 1
+AtMostOnce == \A X \in 1..N : blocks[X].acc => \A x \in {"t", "u", "b", "bb", "bu", "w"} : Execs(X, x) <= 1
 InWindow == \A X \in 2..N : blocks[X].acc => \A i \in 1..Len(blocks[X].txl) : Legal(blocks[X].txl[i], blocks[X].time)
-\* what was executed only on another fork may be executed again: such an offer is accepted
+\* what was executed only on another fork may be executed again, and no carrier makes a valid block unacceptable: such an offer is accepted
 ForkFree == \A X \in 2..N : LET L == blocks[X].txl IN
               (/\ \A i \in 1..Len(L) : Legal(L[i], blocks[X].time)
                /\ NoDup(Map(ExecAll(L), Payload))
-               /\ Range(Map(ExecAll(L), Payload)) \cap Done(blocks[X].parent, Payload) = {}) => blocks[X].acc
+               /\ Range(Map(ExecAll(L), Payload)) \cap DoneP(blocks[X].parent) = {}) => blocks[X].acc
+\* the verdict on a block does not depend on its carrier encoding (checked on the design; the real node is judged by the trace spec)
+CarrierFree == \A X, Y \in 2..N : (/\ blocks[X].parent = blocks[Y].parent /\ blocks[X].time = blocks[Y].time
+                                   /\ blocks[X].txl = blocks[Y].txl) => blocks[X].acc = blocks[Y].acc
 ====
